@@ -284,16 +284,20 @@ class Meter:
         tool = mon.PROFILER_ID
         ev = mon.events
         skip = (env.VERIF_ROOT + "/",)
+        import os as _os
+        asyncio_dir = _os.path.dirname(asyncio.__file__) + "/"
 
         def on_event(code: Any, *args: Any) -> Any:
             if code.co_filename.startswith(skip):
                 return mon.DISABLE
             cls.count += 1
             if cls.count > cls.budget:
-                cls.budget = 1 << 62
+                # Keep raising on every further event until stop(): asyncio's Task / Handle wrappers swallow the
+                # exception and carry on, and a second spin in the same run must not escape the budget.  The event
+                # loop's own code is spared, so that its cleanup (finally blocks, running-loop bookkeeping) completes.
+                if cls.tripped and code.co_filename.startswith(asyncio_dir):
+                    return None
                 cls.tripped = True
-                mon.set_events(tool, 0)
-                cls.active = False
                 raise WorkBudgetExceeded(cls.count)
             return None
 
